@@ -35,7 +35,7 @@ def run(ctx):
         with concurrent.futures.ThreadPoolExecutor(max_workers=3) as ex:
             # (d) expiry: one process, waits for real janitor passes (~61 s each); everything else runs meanwhile
             fd = ex.submit(ctx.run_shards, b, "TestVerifC13", 1, 900 if thorough else 700, "c13expiry", {"C13_PART": "d"})
-            fa = ex.submit(ctx.run_shards, b, "TestVerifC13", 8, 1500 if thorough else 400, "c13abc", {"C13_PART": "abc"})
+            fa = ex.submit(ctx.run_shards, b, "TestVerifC13", 8, 1500 if thorough else 400, "c13abce", {"C13_PART": "abce"})
             br = ctx.build(PKG, race=True)
             fr = ex.submit(ctx.run_shards, br, "TestVerifC13", 6, 1500 if thorough else 500, "c13race",
                            {"C13_PART": "a", "C13_RACE": "1", "VERIF_TIER": "quick"}, True)
@@ -105,9 +105,19 @@ def run(ctx):
         "before and after a new session reuses the slot; and the server application closing the earlier session's net.Conn after reuse. "
         "(d) ConnectionTimeout=40s/OldConnectionTimeout=45s, real janitor passes observed through the hook: sessions pumped every 100 ms must "
         "survive the expiry of the retired entry of their slot's earlier session (closed at 0 s: first pass; closed at 25 s: second pass), a "
-        "control session without predecessor, sessions opened after a pass. A case is non-trivial if the deciding comparison ran on bytes "
-        "actually transferred (a-c) / the predecessor's retirement had provably expired at the observed pass (d).",
+        "control session without predecessor, sessions opened after a pass. "
+        "(e) crowd: a population of sessions, each behind its own address, is built up to and past the capacity of the session table "
+        "(1296 + surplus handshakes one after the other, 1296 + surplus from 8 goroutines with a delay inside newUser, 120 below the capacity; "
+        "thorough: exactly full / one below / random sizes, everybody leaves and the table is refilled): every id of the two-character space "
+        "is handed out and used, the surplus must be refused (what the refused real client then sends under the filler id is recorded "
+        "too), every standing session transfers keyed bytes, hostile commands against the highest/lowest/digit-carry/random ids from another "
+        "session's and a fresh address are judged as in (b), then in cycles a random part of the population (always the holder of the "
+        "highest id) is closed by client or server, the old owners name their retired ids again, the freed slots are re-taken from fresh "
+        "addresses plus a surplus and the whole population transfers again; same online monitors and offline porcupine check as (a). "
+        "A case is non-trivial if the deciding comparison ran on bytes actually transferred (a-c, e; e also: the population reached its "
+        "intended size or the capacity) / the predecessor's retirement had provably expired at the observed pass (d).",
         ["source addresses are what the communicator reports (net.Addr strings), as for the real UDP communicator",
          "which of BADIP/BADUSER/BADCONN a rejection carries is recorded but not judged",
-         "in (a) all sessions keep the default Base32 downstream codec so that the recorder can classify answers without guessing"],
+         "in (e) whether a handshake was refused is read from the answer on the wire (the real client's VersionHandshake reports a refused handshake as success)",
+         "in (a) and (e) all sessions keep the default Base32 downstream codec so that the recorder can classify answers without guessing"],
         extra_cov={"exhaustive": False}, min_distinct=2, post=post)
